@@ -676,6 +676,7 @@ def run_cases(ctx, profile, ncases, nops, oracle=None, nontrivial=None, modes=('
                 if probe_post:
                     obs['probe'] = probe_post(runner, op, pre)
                 sc.learn(op, obs)
+                sc.conn = runner.connected()      # generation guidance only: API calls address live sessions
                 ops.append(op)
                 impl.append(obs)
                 ctx.count('op.' + op['op'])
